@@ -250,6 +250,7 @@ pub fn judge(case: &Case, ex: &Exec) -> Result<Vec<Violation>, String> {
     }
     let mut v = match (case.property.as_str(), case.kind.as_str()) {
         ("C20", _) => oracle::check_c20(case, &ex.h, &ex.alts),
+        ("C16", "diag") => crate::diag::judge(case, ex),
         ("C16", _) => oracle::check_c16(case, &ex.h),
         ("C17", _) => oracle::check_c17(case, &ex.h, &ex.alts),
         ("C18", _) => oracle::check_c18(case, &ex.h),
@@ -308,6 +309,16 @@ fn ah_sweep_case(seed: u64, run: u64, stats: &mut Stats) -> Case {
 pub fn make_case(prop: &str, seed: u64, run: u64, stats: &mut Stats) -> Option<Case> {
     if prop == "C18" && run < 512 {
         return Some(ah_sweep_case(seed, run, stats));
+    }
+    if prop == "C16" && run % 5 >= 3 {
+        // diagnostic clause: localised storage faults (DESIGN.md section 6.2)
+        return match crate::diag::make_case(seed, run, stats) {
+            Some(c) => Some(c),
+            None => {
+                stats.gen_failed += 1;
+                None
+            }
+        };
     }
     let rs = run_seed(seed, prop, run);
     let mut r = Rng::new(rs);
@@ -558,6 +569,18 @@ pub fn minimise(case: &Case, class: &str) -> Case {
         c.program = Some(pp);
         if rebuild_from_program(&mut c) && still_fails(&c, class) {
             best = c;
+        }
+    } else if best.kind == "diag" {
+        let n = String::from_utf8_lossy(&best.scn.source.0).split('\n').count();
+        let base = best.clone();
+        let kept = ddmin((0..n).collect::<Vec<usize>>(), &mut budget, |ks| match crate::diag::rebuild(&base, ks) {
+            Some(c) => still_fails(&c, class),
+            None => false,
+        });
+        if let Some(c) = crate::diag::rebuild(&base, &kept) {
+            if still_fails(&c, class) {
+                best = c;
+            }
         }
     } else if best.kind == "storage" || best.kind == "env" {
         // raw source: by lines, then nothing finer (bounded)
